@@ -29,7 +29,9 @@ ASSUMPTIONS = [
     "cooler load: records of one chunk map to distinct pixels (dupcheck), repeats are placed in different chunks",
 ]
 
-UNLISTED = ["chrUn", "scaffold_9", "chrM_x"]
+# names that are not in the bin table; None is a missing label (NaN in a frame; the text routes write it as "None",
+# which - like "NA" and "null" - pandas reads back as a missing value)
+UNLISTED = ["chrUn", "scaffold_9", "chrM_x", "NA", None, "null"]
 
 
 @st.composite
@@ -112,7 +114,9 @@ def api_cases(draw):
     return {"part": "records", "bt": bt, "records": recs, "one_based": draw(st.booleans()),
             "tril": draw(st.sampled_from(["reflect", "reflect", "drop", None])),
             "sort": draw(st.booleans()), "perm": draw(st.integers(0, 2**16)),
-            "categorical_bins": draw(st.booleans())}
+            # chrom column of the bin table: object, categorical in order of appearance, or categorical with categories
+            # in LEXICAL order (what .astype("category") produces)
+            "categorical_bins": draw(st.sampled_from([False, True, "lexical"]))}
 
 
 def _frame(recs, one_based):
@@ -149,9 +153,20 @@ def check_records(case, ctx: Ctx):
     order = np.random.RandomState(case["perm"]).permutation(len(recs)).tolist()
     shuffled = [recs[t] for t in order]
     status, exp = expected(bt, recs, case["tril"])
-    bins = gen.bins_df(bt, categorical=case["categorical_bins"])
-    sanitize = call("sanitize_records()", sanitize_records, bins, schema="pairs", is_one_based=case["one_based"],
-                    tril_action=case["tril"], sided_fields=("chrom", "pos", "strand"), sort=case["sort"])
+    bins = gen.bins_df(bt, categorical=bool(case["categorical_bins"]))
+    skw = dict(schema="pairs", is_one_based=case["one_based"], tril_action=case["tril"],
+               sided_fields=("chrom", "pos", "strand"), sort=case["sort"])
+    if case["categorical_bins"] == "lexical" and sorted(bt["names"]) != list(bt["names"]):
+        bins["chrom"] = bins["chrom"].astype(object).astype("category")
+        # such a table may be refused outright (the unchanged tree does, with an AssertionError); if it is accepted,
+        # every record must still land in the bin that contains it
+        try:
+            sanitize = sanitize_records(bins, **skw)
+        except Exception:  # noqa: BLE001
+            ctx.record(case, False, ["records", "lexical-categorical-bins-refused"])
+            return
+    else:
+        sanitize = call("sanitize_records()", sanitize_records, bins, **skw)
     df_in = _frame(shuffled, case["one_based"])
     if status == "invalid":
         must_raise("a record with a position outside its chromosome", sanitize, df_in)
